@@ -343,7 +343,7 @@ SPACES = {"nc": Space()}
 
 
 def bfs(tier, ctx):
-    ctx.bfs("nc", bounds(tier)["netcdf_program_depth"], time_cap=60 if tier == "quick" else 1500)
+    ctx.bfs("nc", bounds(tier)["netcdf_program_depth"], time_cap=300 if tier == "quick" else 2400)
 
 
 # ------------------------------------------------------------------------------------------
